@@ -3,6 +3,7 @@ import GoBeans.Model.Store
 import GoBeans.Model.GC
 import GoBeans.Model.LogView
 import GoBeans.Model.Tree
+import GoBeans.Model.Crash
 import GoBeans.Spec.KV
 
 /-! engine `seq`: a real HStore driven by one client, against
@@ -22,6 +23,15 @@ structure Cfg where
 structure SpecEntryX where
   verExact : Bool := true      -- false once a version changed without a data write (check_vhash + explicit revision)
 
+/-- one crash state: what the model says recovery gives, and what the property allows -/
+structure Snap where
+  inGC : Bool
+  torn : Bool
+  recovered : Store.Bucket
+  allowed : List (Bytes × List String)      -- per key: the replies a get may give after recovery (C06)
+  exact : List (Bytes × String)             -- per key: the reply required (C07: the value before the pass)
+  label : String
+
 structure St where
   cfg : Cfg := {}
   caseId : String := ""
@@ -33,6 +43,11 @@ structure St where
   active : Bool := false
   lastFiles : String := ""               -- the implementation's last data-file inventory (independent scan)
   gcPending : Option (Nat × Nat × Nat × String) := none   -- bucket, start, end, inventory before the pass
+  -- engine crash
+  writes : List (Bytes × Store.Pos × Nat × String) := []  -- acknowledged writes in order: key, position, on-disk size, what a get returns afterwards
+  snaps : List (Nat × Snap) := []
+  gcSpec : Option Spec.KV := none                          -- the reference map when the GC pass began (C07)
+  gcPre : Option (Store.Bucket × Nat × Nat) := none        -- the bucket model before the pass, and the resolved range
 
 def depthOf (nb : Nat) : Nat := if nb ≥ 256 then 2 else if nb ≥ 16 then 1 else 0
 
@@ -125,6 +140,20 @@ def filesOfModel (buckets : Array Store.Bucket) : String := Id.run do
     bi := bi + 1
   return out
 
+def fmtGet (r : Spec.Reply) : String := match r with
+  | .value f body => s!"VAL {f} {valSummary body}" | .miss => "MISS" | _ => "ERR"
+
+/-- remember an acknowledged write that put a record on (eventually) disk -/
+def noteWrite (st : St) (scfg : Spec.Cfg) (k : Bytes) (pos : Option Store.Pos) (size : Nat) : St :=
+  match pos with
+  | some p => { st with writes := st.writes ++ [(k, p, size, fmtGet (Spec.step scfg st.spec (.get k)).2)] }
+  | none => st
+
+def parseSizes (s : String) : List (Nat × Nat) :=
+  if s == "-" then [] else (s.splitOn ",").filterMap fun x => match x.splitOn ":" with
+    | [c, n] => some (c.toNat!, n.toNat!)
+    | _ => none
+
 def run (lines : Array String) : IO Report := do
   let rep ← IO.mkRef ({} : Report)
   let mut st : St := {}
@@ -199,6 +228,7 @@ def run (lines : Array String) : IO Report := do
           let sp' := if overflow && !(obs.startsWith so) then st.spec else sp'
           let dv := if pos.isSome then (match AMap.get b'.tree (hash k) with | some it => AMap.set st.dataVer k it.ver | none => st.dataVer) else st.dataVer
           st := { st with buckets := st.buckets.set! bkt b', spec := sp', dataVer := dv, inexact := if treeOnly then k :: st.inexact else st.inexact }
+          st := noteWrite st scfgSpec k pos size
           caseNontrivial := true
           ok rep
     | "del" :: kh :: rest =>
@@ -221,6 +251,7 @@ def run (lines : Array String) : IO Report := do
             diff rep ln "oracle" s!"case={cid} key=C01/delete-not-written delete acknowledged but no tombstone record written"
           let dv := if pos.isSome then (match AMap.get b'.tree (hash k) with | some it => AMap.set st.dataVer k it.ver | none => st.dataVer) else st.dataVer
           st := { st with buckets := st.buckets.set! bkt b', spec := sp', dataVer := dv }
+          st := noteWrite st scfgSpec k pos size
           ok rep
     | "incr" :: kh :: delta :: rest =>
         let k := unhex kh
@@ -240,6 +271,7 @@ def run (lines : Array String) : IO Report := do
           if !(obs.startsWith so) then diff rep ln "oracle" s!"case={cid} key=C01/incr-value spec={so} impl={obs}"
           let dv := if pos.isSome then (match AMap.get b'.tree (hash k) with | some it => AMap.set st.dataVer k it.ver | none => st.dataVer) else st.dataVer
           st := { st with buckets := st.buckets.set! bkt b', spec := sp', dataVer := dv }
+          st := noteWrite st scfgSpec k pos size
           ok rep
     | ["get", kh] =>
         let k := unhex kh
@@ -371,7 +403,7 @@ def run (lines : Array String) : IO Report := do
               -- model-internal tie: the concrete pass lays the records out as  before ++ kept ++ after
               if (b'.log.map (·.2)) != StoreLemmas.gcAbstract hash b s e then
                 diff rep ln "model" s!"case={cid} gc-abstraction: concrete gcRun differs from the abstract pass (Lemmas/GCLog.gcAbstract)"
-              st := { st with buckets := st.buckets.set! bkt b', gcPending := some (bkt, s, e, st.lastFiles) }
+              st := { st with buckets := st.buckets.set! bkt b', gcPending := some (bkt, s, e, st.lastFiles), gcPre := some (b, s, e) }
               caseNontrivial := true
         ok rep
     | ["files"] =>
@@ -434,6 +466,115 @@ def run (lines : Array String) : IO Report := do
             | none => s!"model has {ms.length} files, impl has {os.length}: model-last={(ms.getLast?.getD "").take 150} impl-last={(os.getLast?.getD "").take 150}"
           diff rep ln "model" s!"case={cid} data files differ: {detail}"
         ok rep
+    | ["dumphints"] => pure ()
+    | ["close"] => st := { st with buckets := st.buckets.map fun b => (Store.step hash st.scfg b .flush).1 }
+    | ["history-end"] => pure ()
+    | ["gcbegin"] => st := { st with gcSpec := some st.spec }
+    | ["gcend"] => st := { st with gcSpec := none }
+    | "snap" :: n :: opts =>
+        let sizes := parseSizes ((kvOpt opts "sizes").getD "-")
+        let cut := fun (i : Nat) => ((sizes.find? (fun p => p.1 == i)).map (·.2)).getD 0
+        let present := fun (i : Nat) => sizes.any (fun p => p.1 == i)
+        let b := st.buckets[0]!
+        let inGC := (kvOpt opts "gc").getD "0" == "1"
+        let keys := (st.writes.map (·.1)).eraseDups
+        let allowed := keys.map fun k =>
+          let ws := st.writes.filter (fun w => w.1 == k)
+          -- the last write of k whose record lies completely inside the surviving bytes of its file
+          let durableIdx := (List.range ws.length).filter fun i => match ws[i]? with
+            | some (_, p, sz, _) => decide (p.off + sz ≤ cut p.chunk)
+            | none => false
+          match durableIdx.getLast? with
+          | some i => (k, (ws.drop i).map (·.2.2.2))
+          | none => (k, "MISS" :: ws.map (·.2.2.2))
+        let exact := match st.gcSpec with
+          | some sp => keys.map fun k => (k, fmtGet (Spec.step scfgSpec sp (.get k)).2)
+          | none => []
+        -- C07 tie: the data files of a crash state inside the pass are one of the abstract intermediate states
+        --   before ++ kept(processed) ++ tail ++ rest ++ after      (Lemmas/GCCrash.lean)
+        if inGC then
+          match st.gcPre, kvOpt opts "files" with
+          | some (b0, gs, ge), some inv =>
+              let fmtR := fun (x : Store.Pos × Store.Rec) => s!"{tohex x.2.key}:{x.2.ver}"
+              let observed : List String := if inv == "-" then [] else (inv.splitOn ",").map fun it =>
+                match it.splitOn ":" with
+                | [_, _, kh, ver] => s!"{kh}:{ver}"
+                | _ => it
+              let full := b0.log
+              let before := full.filter (fun x => decide (x.1.chunk < gs))
+              let mid := full.filter (fun x => decide (gs ≤ x.1.chunk) && decide (x.1.chunk ≤ ge))
+              let after := full.filter (fun x => decide (x.1.chunk > ge))
+              let hasEntry := fun k => (AMap.get b0.tree (hash k)).isSome
+              let keep := StoreLemmas.gcKeep hasEntry (decide (gs > 0)) full
+              let found := (List.range (mid.length + 1)).any fun j =>
+                let processed := mid.take j
+                let rest := mid.drop j
+                let kept := processed.filter keep
+                let lastChunk := (processed.getLast?.map (·.1.chunk)).getD 0
+                let curProc := processed.filter (fun x => x.1.chunk == lastChunk)
+                (List.range (curProc.length + 1)).any fun t =>
+                  let tail := curProc.drop (curProc.length - t)
+                  (before ++ kept ++ tail ++ rest ++ after).map fmtR == observed
+              -- a write in the middle of an existing file that is not a whole number of blocks (or is cut) may leave
+              -- a record half overwritten: that is the byte-granular territory of the known finding, judged by the oracle
+              let ws := opts
+              let partialInPlace := ws.contains "app=0" && !(ws.contains "cut=0" &&
+                (((kvOpt ws "off").getD "0").toNat! % 256 == 0) && (((kvOpt ws "len").getD "0").toNat! % 256 == 0))
+              if !found && !partialInPlace then
+                diff rep ln "model" s!"case={cid} gc-interm-abstraction: the data files at ({" ".intercalate (opts.filter (fun o => !o.startsWith "files="))}) are none of the abstract intermediate states of the pass [{gs},{ge}]: {(",".intercalate observed).take 300}"
+          | _, _ => pure ()
+        let sn : Snap := { inGC := inGC, torn := b.tornAt cut, recovered := b.recover hash st.scfg cut present,
+                           allowed := allowed, exact := exact, label := " ".intercalate (opts.filter (fun o => !o.startsWith "files=")) }
+        st := { st with snaps := (n.toNat!, sn) :: st.snaps }
+        caseNontrivial := true
+    | ["crash", n] =>
+        match st.snaps.find? (fun p => p.1 == n.toNat!) with
+        | none => diff rep ln "driver" s!"crash of unknown snapshot {n}"
+        | some (_, sn) =>
+            if obs ≠ "OK" then
+              if sn.inGC then
+                -- a relocated record that was being APPENDED to the destination file and reached it only in part
+                let lw := sn.label.splitOn " "
+                let unaligned := (((kvOpt lw "sizes").getD "").splitOn ",").any fun x => match x.splitOn ":" with
+                  | [_, n] => n.toNat! % 256 != 0
+                  | _ => false
+                -- the file being appended to ends in a partial record (also: between the writes of a record larger than the buffer)
+                let evFile := ((kvOpt lw "file").getD "").take 3
+                let partialEnd := (((kvOpt lw "partial").getD "-").splitOn ",").any fun c => c != "-" && c.toNat? == evFile.toString.toNat?
+                let tornAppend := lw.contains "app=1" && (!(lw.contains "cut=0") || unaligned || partialEnd)
+                if tornAppend then
+                  diff rep ln "oracle" s!"case={cid} key=C07/refused-torn-appended-record the store refuses to start when the kill cut the relocated record being appended to the destination file ({sn.label})"
+                else
+                  diff rep ln "oracle" s!"case={cid} key=C07/refused-after-kill-in-gc the store refuses to start from the state a kill inside the GC pass leaves ({sn.label})"
+              else if !sn.torn then
+                diff rep ln "oracle" s!"case={cid} key=C06/refused-without-torn-tail the store refuses to start although no data file ends in a partial record ({sn.label})"
+            ok rep
+    | ["cget", n, kh] =>
+        match st.snaps.find? (fun p => p.1 == n.toNat!) with
+        | none => diff rep ln "driver" s!"cget of unknown snapshot {n}"
+        | some (_, sn) =>
+            let k := unhex kh
+            if sn.inGC then
+              match sn.exact.find? (fun p => p.1 == k) with
+              | some (_, want) =>
+                  if obs ≠ want then
+                    let lw := sn.label.splitOn " "
+                    let partialInPlace := lw.contains "app=0" && !(lw.contains "cut=0" &&
+                      (((kvOpt lw "off").getD "0").toNat! % 256 == 0) && (((kvOpt lw "len").getD "0").toNat! % 256 == 0))
+                    if partialInPlace then
+                      diff rep ln "oracle" s!"case={cid} key=C07/lost-after-partial-inplace-move key {kh.take 40}: before the pass {want.take 60}, after a kill inside an in-place write ({sn.label}) {obs.take 60}"
+                    else
+                      diff rep ln "oracle" s!"case={cid} key=C07/value-after-kill-in-gc key {kh.take 40}: before the pass {want.take 60}, after a kill inside it ({sn.label}) {obs.take 60}"
+              | none => if obs ≠ "MISS" then diff rep ln "oracle" s!"case={cid} key=C07/value-after-kill-in-gc key {kh.take 40} never written reads {obs.take 60}"
+            else
+              let (_, r, _) := Store.step hash st.scfg sn.recovered (.get k)
+              if fmtGet r ≠ obs then diff rep ln "model" s!"case={cid} crash-recovery ({sn.label}) get {kh.take 40}: model={(fmtGet r).take 80} impl={obs.take 80}"
+              match sn.allowed.find? (fun p => p.1 == k) with
+              | some (_, al) =>
+                  if !(al.contains obs) then
+                    diff rep ln "oracle" s!"case={cid} key=C06/value-after-kill key {kh.take 40} reads {obs.take 60} after a kill at ({sn.label}); allowed: {(" | ".intercalate (al.map (fun x => (x.take 40).toString))).take 200}"
+              | none => if obs ≠ "MISS" then diff rep ln "oracle" s!"case={cid} key=C06/value-after-kill key {kh.take 40} never written reads {obs.take 60}"
+            ok rep
     | ["stray"] =>
         if obs ≠ "-" then diff rep ln "oracle" s!"case={cid} key=C15/stray-file files outside the served buckets' directories: {obs.take 200}"
         ok rep
